@@ -326,6 +326,20 @@ func (c *Ctx) tokenHalves(fn string, add ssa.CallInstruction, cookie *StateOp, g
 			if in, isI := ec.(ssa.Instruction); isI && in.Parent() != nil {
 				for _, sc := range CallsTo(in.Parent(), fnSum512) {
 					raw := stripConv(Arg(sc, 0))
+					// … a buffer this function filled from the entropy source (the hash of
+					// the cookie that came in is computed the same way and is not it)
+					fresh := false
+					for _, rc := range Calls(in.Parent()) {
+						switch Callee(rc) {
+						case "io.ReadFull", "io.ReadAtLeast":
+							if entropyBufRoot(Arg(rc, 1)) == entropyBufRoot(raw) {
+								fresh = true
+							}
+						}
+					}
+					if !fresh {
+						continue
+					}
 					switch idx {
 					case 0:
 						if encodingOf(ec) == gStdEncoding && derivesFromValue(Arg(ec, 1), sc.Value(), 0) {
